@@ -1212,11 +1212,17 @@ def ext_call(it, dotted, args, kw, n):
                 raise RaiseEx(type(e).__name__, '')
         return Term(last, a)
     if dotted == 'itertools.accumulate':
+        if set(kw) - {'initial', 'func'} or len(args) > 2:
+            raise Fail(f'itertools.accumulate with arguments the model does not know: {sorted(kw)}')
         items = it.iterate(args[0])
         if items is not None:
-            out, tot = [], None
+            func = kw.get('func', args[1] if len(args) > 1 else None)
+            init = kw.get('initial')
+            has_init = init is not None and not (isinstance(init, K) and init.v is None)
+            out, tot = ([init], init) if has_init else ([], None)
             for x in items:
-                tot = x if tot is None else it.binop(ast.Add(), tot, x)
+                tot = x if tot is None else (it.call(func, [tot, x], {}, n) if func is not None and not (isinstance(func, K) and func.v is None)
+                                              else it.binop(ast.Add(), tot, x))
                 out.append(tot)
             return ListV(out)
     if dotted == 'itertools.chain':
@@ -1880,9 +1886,15 @@ def val_method(it, v, name, args, kw, node):
         if name == 'copy':
             return ListV(list(v.items), v.tup)
         if name == 'index':
-            for i, x in enumerate(v.items):
-                if it.eq3(x, args[0]) is True:
+            lo_ = _int(args[1], 'index start') if len(args) > 1 else 0
+            hi_ = _int(args[2], 'index stop') if len(args) > 2 else len(v.items)
+            lo_, hi_, _ = slice(lo_, hi_).indices(len(v.items))
+            for i in range(lo_, hi_):
+                r_ = it.eq3(v.items[i], args[0])
+                if r_ is True:
                     return K(i)
+                if r_ is None:
+                    raise Fail('list.index over elements whose equality with the argument is undecided')
             raise RaiseEx('ValueError', 'not in list')
         if name == 'reverse':
             v.items.reverse()
